@@ -3,7 +3,7 @@
 pub open spec fn msum(keys: Seq<Seq<char>>, m: Map<Seq<char>, F64>, env: Env, n: int) -> real
     decreases n,
 {
-    if n <= 0 || n > keys.len() { 0real } else { msum(keys, m, env, n - 1) + rv(m[keys[n - 1]]) * env[keys[n - 1]] }
+    if n <= 0 || n > keys.len() { 0real } else { msum(keys, m, env, n - 1) + rmul_s(rv(m[keys[n - 1]]), env[keys[n - 1]]) }
 }
 pub open spec fn lc_eval(lc: LinearizationContext, env: Env) -> real {
     rv(lc.current_rhs) + msum(lc.current_vars.keys(), lc.current_vars.map(), env, lc.current_vars.keys().len() as int)
@@ -14,15 +14,71 @@ pub open spec fn lc_fin(lc: LinearizationContext) -> bool {
     &&& fv(lc.current_rhs) is Fin
     &&& forall|k: Seq<char>| lc.current_vars.has(k) ==> fv(#[trigger] lc.current_vars.map()[k]) is Fin
 }
-// all numeric literals of an expression are finite (the precondition under which C08's "finite coefficients" holds)
-pub open spec fn exp_fin(e: Exp) -> bool
-    decreases e,
+// ---- lemmas about msum (pure ghost facts about sums over an insertion-ordered map) ----
+// msum only looks at the first n keys and at the map values of those keys
+pub proof fn lemma_msum_ext(k1: Seq<Seq<char>>, m1: Map<Seq<char>, F64>, k2: Seq<Seq<char>>, m2: Map<Seq<char>, F64>, env: Env, n: int)
+    requires 0 <= n <= k1.len(), n <= k2.len(),
+        forall|j: int| 0 <= j < n ==> k1[j] == k2[j] && rv(m1[k1[j]]) == rv(m2[k2[j]]),
+    ensures msum(k1, m1, env, n) == msum(k2, m2, env, n),
+    decreases n,
 {
-    match e {
-        Exp::Number(v) => fv(v) is Fin,
-        Exp::Variable(_) => true,
-        Exp::Abs(i) | Exp::Not(i) | Exp::UnOp(_, i) => exp_fin(*i),
-        Exp::Min(es) | Exp::Max(es) | Exp::And(es) | Exp::Or(es) => forall|i: int| 0 <= i < es@.len() ==> exp_fin(#[trigger] es@[i]),
-        Exp::Xor(a, b) | Exp::Implies(a, b) | Exp::Iff(a, b) | Exp::BinOp(_, a, b) => exp_fin(*a) && exp_fin(*b),
+    if n > 0 { lemma_msum_ext(k1, m1, k2, m2, env, n - 1); }
+}
+// changing the value of ONE key (at position p) changes the sum by the difference of that term
+pub proof fn lemma_msum_update(keys: Seq<Seq<char>>, m: Map<Seq<char>, F64>, p: int, v: F64, env: Env, n: int)
+    requires keys.no_duplicates(), 0 <= p < keys.len(), 0 <= n <= keys.len(),
+    ensures msum(keys, m.insert(keys[p], v), env, n) == msum(keys, m, env, n) + (if p < n { rmul_s(rv(v), env[keys[p]]) - rmul_s(rv(m[keys[p]]), env[keys[p]]) } else { 0real }),
+    decreases n,
+{
+    if n > 0 {
+        lemma_msum_update(keys, m, p, v, env, n - 1);
+        if n - 1 != p { assert(keys[n - 1] != keys[p]); }
     }
 }
+// appending a NEW key adds exactly its term
+pub proof fn lemma_msum_push(keys: Seq<Seq<char>>, m: Map<Seq<char>, F64>, k: Seq<char>, v: F64, env: Env)
+    requires !keys.contains(k),
+    ensures msum(keys.push(k), m.insert(k, v), env, keys.len() as int + 1) == msum(keys, m, env, keys.len() as int) + rmul_s(rv(v), env[k]),
+{
+    let k2 = keys.push(k);
+    assert forall|j: int| 0 <= j < keys.len() implies keys[j] == k2[j] && rv(m[keys[j]]) == rv(m.insert(k, v)[k2[j]]) by {
+        assert(keys[j] != k);
+    }
+    lemma_msum_ext(keys, m, k2, m.insert(k, v), env, keys.len() as int);
+    assert(k2[keys.len() as int] == k);
+}
+// scaling every coefficient of the first n keys scales the sum
+pub proof fn lemma_msum_scale(keys: Seq<Seq<char>>, m1: Map<Seq<char>, F64>, m2: Map<Seq<char>, F64>, c: real, env: Env, n: int)
+    requires 0 <= n <= keys.len(), forall|j: int| 0 <= j < n ==> rv(m2[keys[j]]) == rmul_s(c, rv(m1[keys[j]])),
+    ensures msum(keys, m2, env, n) == rmul_s(c, msum(keys, m1, env, n)),
+    decreases n,
+{
+    if n > 0 {
+        lemma_msum_scale(keys, m1, m2, c, env, n - 1);
+        let a = rv(m1[keys[n - 1]]); let e = env[keys[n - 1]]; let s = msum(keys, m1, env, n - 1);
+        assert((c * a) * e == c * (a * e)) by (nonlinear_arith);
+        assert(c * (s + a * e) == c * s + c * (a * e)) by (nonlinear_arith);
+    } else {
+        assert(c * 0real == 0real) by (nonlinear_arith);
+    }
+}
+pub proof fn lemma_msum_div(keys: Seq<Seq<char>>, m1: Map<Seq<char>, F64>, m2: Map<Seq<char>, F64>, d: real, env: Env, n: int)
+    requires d != 0real, 0 <= n <= keys.len(), forall|j: int| 0 <= j < n ==> rv(m2[keys[j]]) == rdiv_s(rv(m1[keys[j]]), d),
+    ensures msum(keys, m2, env, n) == rdiv_s(msum(keys, m1, env, n), d),
+    decreases n,
+{
+    if n > 0 {
+        lemma_msum_div(keys, m1, m2, d, env, n - 1);
+        let a = rv(m1[keys[n - 1]]); let e = env[keys[n - 1]]; let s = msum(keys, m1, env, n - 1);
+        assert((a / d) * e == (a * e) / d) by (nonlinear_arith) requires d != 0real;
+        assert((s + a * e) / d == s / d + (a * e) / d) by (nonlinear_arith) requires d != 0real;
+    } else {
+        assert(0real / d == 0real) by (nonlinear_arith) requires d != 0real;
+    }
+}
+pub proof fn lemma_distrib(a: real, b: real, x: real) ensures rmul_s(a + b, x) == rmul_s(a, x) + rmul_s(b, x), rmul_s(-a, x) == -rmul_s(a, x)
+{
+    assert((a + b) * x == a * x + b * x) by (nonlinear_arith);
+    assert((-a) * x == -(a * x)) by (nonlinear_arith);
+}
+pub proof fn lemma_mul_comm_lc(x: real, y: real) ensures x * y == y * x, rmul_s(x, y) == rmul_s(y, x) { assert(x * y == y * x) by (nonlinear_arith); }
